@@ -117,6 +117,28 @@ TABLE = {
     (L + "tokenizer::pos", "unwrap", "Option::unwrap"): (1, "grammar-invariant", "the token stream ends with END, which no grammar rule consumes (R83b)"),
 }
 
+LSP = L + "lsp::"
+SLICE_IDX = "core::slice::index::<impl core::ops::index::Index<I> for [T]>::index"
+TABLE.update({
+    (LSP + "ServerState::update_document", "unwrap", "Option::unwrap"): (1, "just-inserted", "documents.get(&uri) right after documents.insert(uri, ..)"),
+    (LSP + "run_server", "unwrap", "Result::unwrap"): (3, "dependency-total", "serde_json::json! serialising a Value and a &str"),
+    (LSP + "analysis::analyze", "precond", IDX): (2, "guarded-by-shape", "binding_ranges has one entry per Let / Constraint statement of the same ast and binding_idx counts them"),
+    (LSP + "analysis::collect_inner_import_paths", "assert", "BoundsCheck()"): (2, "guarded-by-shape", "binding_ranges has one entry per Let / Constraint statement of the same ast and binding_idx counts them"),
+    (LSP + "analysis::ucg_pos_to_range", "assert", "Overflow(Add u32)"): (1, "input-bounded", "column of a token of the document, minus one, plus one"),
+    (LSP + "collect_dot_path", "precond", IDX): (5, "guarded-by-shape", "idx comes from position() over the same tokens; i - 1 and i - 2 under `while i >= 2`; i never grows"),
+    (LSP + "collect_dot_path", "assert", "Overflow(Sub usize)"): (3, "guarded-by-shape", "i - 1, i - 2, i -= 2 under `while i >= 2`"),
+    (LSP + "find_definition", "precond", IDX): (2, "guarded-by-shape", "path[0] and path[1..]: collect_dot_path only returns paths of length >= 2"),
+    (LSP + "find_definition", "assert", "BoundsCheck()"): (2, "guarded-by-shape", "fields[0]: fields = path[1..] of a path of length >= 2"),
+    (LSP + "find_definition", "precond", SLICE_IDX): (2, "guarded-by-shape", "fields[1..] after `fields.len() == 1` returned"),
+    (LSP + "find_hover_dot_expr", "precond", IDX): (3, "guarded-by-shape", "path[0], path[1..], path[len - 1] of a path of length >= 2"),
+    (LSP + "find_hover_dot_expr", "assert", "Overflow(Sub usize)"): (1, "guarded-by-shape", "path.len() - 1 of a path of length >= 2"),
+    (LSP + "token_ref_at::{closure#0}", "precond", IDX): (1, "guarded-by-shape", "idx comes from position() over the same tokens"),
+    (LSP + "walk_fields_to_definition", "assert", "Overflow(Sub usize)"): (2, "guarded-by-shape", "fields is non-empty at both call sites (fields[1..] of at least two fields)"),
+    (LSP + "walk_fields_to_definition", "precond", SLICE_IDX): (1, "guarded-by-shape", "fields[..len - 1] of a non-empty slice"),
+    (LSP + "walk_fields_to_definition", "assert", "BoundsCheck()"): (1, "guarded-by-shape", "fields[len - 1] of a non-empty slice"),
+    (LSP + "workspace::scan_imports", "precond", IDX): (5, "guarded-by-shape", "tokens[i] under `i < tokens.len()`, tokens[j] under `j < tokens.len()`"),
+})
+
 REVIEWED = {}
 for (fn, kind, detail), (n, cls, why) in TABLE.items():
     for k in range(n):
